@@ -1,6 +1,123 @@
 // Contract harnesses for ntp-proto/src/system.rs (child module: sees private items).
-#![allow(unused_imports)]
+// Property C33: advertised stratum / reference id (NtpSnapshot::from_used_sources).
+#![allow(unused_imports, dead_code)]
 use super::*;
+use crate::source::Reach;
+use crate::time_types::PollInterval;
+use crate::verif_common::{harness, FromParts, Parts};
+
+fn any_server_id() -> (ServerId, [u16; 10]) {
+    let v: [u16; 10] = kani::any();
+    kani::assume(v[9] < 4096);
+    kani::assume(v[0] < v[1] && v[1] < v[2] && v[2] < v[3] && v[3] < v[4] && v[4] < v[5]);
+    kani::assume(v[5] < v[6] && v[6] < v[7] && v[7] < v[8] && v[8] < v[9]);
+    (ServerId::from_parts(v), v)
+}
+fn any_version() -> ProtocolVersion {
+    match kani::any::<u8>() % 4 {
+        0 => ProtocolVersion::V4,
+        1 => ProtocolVersion::V4UpgradingToV5 { tries_left: kani::any() },
+        2 => ProtocolVersion::UpgradedToV5,
+        _ => ProtocolVersion::V5,
+    }
+}
+fn any_snapshot() -> SourceSnapshot {
+    if kani::any() {
+        let o: [u8; 4] = kani::any();
+        let mut reach = Reach::never();
+        if kani::any() {
+            reach.received_packet();
+        }
+        SourceSnapshot::Ntp(NtpSourceSnapshot {
+            source_addr: SocketAddr::new(IpAddr::V4(std::net::Ipv4Addr::new(o[0], o[1], o[2], o[3])), kani::any()),
+            source_id: ReferenceId::from_int(kani::any()),
+            poll_interval: PollInterval::from_byte(kani::any()),
+            reach,
+            stratum: kani::any(),
+            reference_id: ReferenceId::from_int(kani::any()),
+            protocol_version: any_version(),
+            // Bloom filter contents are C34's subject; here: absent or empty (keeps the 512-byte unions concrete)
+            bloom_filter: if kani::any() { Some(BloomFilter::new()) } else { None },
+        })
+    } else {
+        SourceSnapshot::External { stratum: kani::any(), source_id: ReferenceId::from_int(kani::any()) }
+    }
+}
+fn first_of(s: &SourceSnapshot) -> (u8, ReferenceId) {
+    match s {
+        SourceSnapshot::Ntp(n) => (n.stratum, n.source_id),
+        SourceSnapshot::External { stratum, source_id } => (*stratum, *source_id),
+    }
+}
+fn bit_set(bytes: &[u8; 512], idx: u16) -> bool {
+    bytes[(idx / 8) as usize] & (1u8 << (idx % 8)) != 0
+}
+
+/// bound: at most 2 used sources (only the first one matters for stratum / reference id; the
+/// others only feed the Bloom filter). All field values are symbolic.
+fn from_used_sources_contract(n: usize) {
+    let local_stratum: u8 = kani::any();
+    // fixed valid server id: Bloom filter contents are C34's subject (symbolic bit indices into the
+    // 512-byte filter cost minutes of solver time and add nothing to the stratum / reference-id claim)
+    let idx: [u16; 10] = [3, 17, 200, 1023, 1024, 2047, 3000, 3500, 4000, 4095];
+    let sid = ServerId::from_parts(idx);
+    let a = any_snapshot();
+    let b = any_snapshot();
+    let list: Vec<SourceSnapshot> = match n {
+        0 => vec![],
+        1 => vec![a],
+        _ => vec![a, b],
+    };
+    let snap = NtpSnapshot::from_used_sources(local_stratum, sid, list.into_iter());
+    if n == 0 {
+        assert!(snap.stratum == local_stratum);
+        assert!(snap.reference_id == ReferenceId::NONE);
+    } else {
+        let (st, id) = first_of(&a);
+        // one more than the primary source, saturating at 255 (no wrap to 0)
+        assert!(snap.stratum as u16 == core::cmp::min(st as u16 + 1, 255));
+        assert!(snap.reference_id == id);
+    }
+    // the advertised Bloom filter always contains this daemon's own server id (C33/C34 link)
+    let bytes = snap.bloom_filter.as_bytes();
+    let mut i = 0;
+    while i < 10 {
+        assert!(bit_set(bytes, idx[i]));
+        i += 1;
+    }
+    assert!(snap.bloom_filter.contains_id(&sid));
+    kani::cover!(n == 0 || first_of(&a).0 == 255, "reachable (with a source: saturation case)");
+}
+
+harness! {
+    #[kani::unwind(514)]
+    fn c33_p_advertise_no_source() {
+        from_used_sources_contract(0);
+    }
+}
+harness! {
+    #[kani::unwind(514)]
+    fn c33_b_advertise_one_source() {
+        from_used_sources_contract(1);
+    }
+}
+harness! {
+    #[kani::unwind(514)]
+    fn c33_tb_advertise_two_sources() {
+        from_used_sources_contract(2);
+    }
+}
+harness! {
+    #[kani::unwind(514)]
+    fn c33_canary_advertise_wraps() {
+        // false: claims the stratum wraps around instead of saturating
+        let sid = ServerId::from_parts([3, 17, 200, 1023, 1024, 2047, 3000, 3500, 4000, 4095]);
+        let a = any_snapshot();
+        let (st, _) = first_of(&a);
+        let snap = NtpSnapshot::from_used_sources(kani::any(), sid, vec![a].into_iter());
+        assert!(snap.stratum == st.wrapping_add(1));
+    }
+}
 
 #[cfg(all(kani, test))]
 mod replay {
